@@ -697,12 +697,17 @@ for _n in ("aten.index.Tensor", "aten.gather.default", "aten.index_select.defaul
 # ---------------------------------------------------------------------------------------------
 
 
-def _fresh_array(m: Shadow, t: torch.Tensor, prefix: str, sort="R", positive=False):
+def _fresh_array(m: Shadow, t: torch.Tensor, prefix: str, sort="R", positive=False, info=None):
     vals = tensor_values(t)
     arr = np.empty(vals.shape, dtype=object)
     ctx = m.ctx
+    rinfo = ctx.__dict__.setdefault("rnd_info", {})
+    call_no = ctx.__dict__.get("rnd_calls", 0) + 1
+    ctx.__dict__["rnd_calls"] = call_no
     for idx in np.ndindex(*vals.shape) if vals.shape else [()]:
         name = ctx.fresh_name(prefix)
+        if info is not None:
+            rinfo[name] = (call_no,) + tuple(info(idx) if callable(info) else info)
         x = vals[idx].item()
         if positive:
             s = T.atom(name)
@@ -718,7 +723,7 @@ def s_normal(m, func, args, kwargs, out):
     t = args[0]
     mean = args[1] if len(args) > 1 else kwargs.get("mean", 0.0)
     std = args[2] if len(args) > 2 else kwargs.get("std", 1.0)
-    arr = _fresh_array(m, t, "rnd_normal")
+    arr = _fresh_array(m, t, "rnd_normal", info=("normal", float(mean), float(std)))
     m.ctx.stubs_used["aten.normal_ -> fresh reals (any value)"] = m.ctx.stubs_used.get("aten.normal_ -> fresh reals (any value)", 0) + 1
     m.ctx.__dict__.setdefault("random_calls", []).append(("normal", float(mean), float(std), tuple(t.shape)))
     m.write(t, arr)
@@ -729,7 +734,7 @@ def s_uniform(m, func, args, kwargs, out):
     t = args[0]
     a = args[1] if len(args) > 1 else kwargs.get("from", 0.0)
     b = args[2] if len(args) > 2 else kwargs.get("to", 1.0)
-    arr = _fresh_array(m, t, "rnd_uniform")
+    arr = _fresh_array(m, t, "rnd_uniform", info=("uniform", float(a), float(b)))
     for v in arr.ravel():
         m.ctx.assumptions.append(T.and_(T.ge(v.re, T.const(a)), T.le(v.re, T.const(b))))
     m.ctx.stubs_used["aten.uniform_ -> fresh reals in [a,b]"] = 1
@@ -739,7 +744,8 @@ def s_uniform(m, func, args, kwargs, out):
 
 @stub("aten._sample_dirichlet.default")
 def s_dirichlet(m, func, args, kwargs, out):
-    arr = _fresh_array(m, out, "rnd_dirichlet", positive=True)
+    _alpha = args[0]
+    arr = _fresh_array(m, out, "rnd_dirichlet", positive=True, info=lambda idx: ("dirichlet", float(_alpha[idx].item()), idx[:-1], idx[-1]))
     # rows along the last dim are positive and sum to one
     for idx in np.ndindex(*arr.shape[:-1]):
         s = T.add(*[v.re for v in arr[idx]])
